@@ -130,7 +130,7 @@ def make_cases(rng, src_path, n, outdir, tag):
             by_type.setdefault(struct.unpack_from('<I', stream, o + 4)[0], []).append(k)
     j = 0
     for ty, ks in sorted(by_type.items()):
-        if len(cases) - n >= 60:
+        if len(cases) - n >= (30 if n < 100 else 60):
             break
         k = ks[min(len(ks) - 1, 1 + rng.randrange(3))]
         o, size = offs[k]
@@ -303,7 +303,23 @@ def pickle_bombs():
     for _ in range(400):
         deep = [deep]
     out['nested-400'] = pickle.dumps(deep, protocol=2)
+    # everything at once, in the shape of a roster message: rows of (member id, value) with ids the property maps know and ids they do
+    # not (large, negative, text), the values being the shared / deep graphs above and a shared tuple
+    t = (1,)
+    for _ in range(30):
+        t = (t, t)
+    vals = [x, d, deep, t]
+    row = [(i, vals[i % 4]) for i in range(0, 70)] + [(200, x), (255, d), (-1, t), (65536, deep), ('name', x)]
+    out['combined-roster'] = pickle.dumps([row], protocol=2)
     return out
+
+
+def tuple_hash_bomb(depth=44):
+    """a dict keyed by a deeply shared tuple: CPython recomputes tuple hashes, unpickling takes time exponential in `depth` (KNOWN FINDING)"""
+    out = b'\x80\x02)q\x00'
+    for i in range(depth):
+        out += b'h' + bytes([i]) + b'h' + bytes([i]) + b'\x86q' + bytes([i + 1])
+    return out + b'}h' + bytes([depth]) + b'K\x01s.'
 
 
 def part_bombs(chk, n_versions):
@@ -317,10 +333,17 @@ def part_bombs(chk, n_versions):
     bombs = pickle_bombs()
     files, meta = [], {}
     try:
+        # known finding, probed once: the hash of a shared tuple used as a dict key
+        g0, v0 = versions[-1]
+        bombs['tuple-key'] = tuple_hash_bomb()
+        p = C18.hostile_battle(g0, v0, chk.seed, 'receiveDamageStat', payload=bombs['tuple-key'], tag='c15b-tuple-key')
+        if p:
+            files.append(p)
+            meta[os.path.basename(p)] = (v0, 'receiveDamageStat', 'tuple-key', len(bombs['tuple-key']))
         for g, v in versions:
             for meth in C18.PICKLE_METHODS:
-                name = rng.choice(sorted(bombs)) if n_versions < 40 else None
-                for bname in ([name] if name else sorted(bombs)):
+                # quick tier: every wows version and method with the combined graph; thorough: every single graph as well
+                for bname in (['combined-roster'] if n_versions < 200 else sorted(b for b in bombs if b != 'tuple-key')):
                     p = C18.hostile_battle(g, v, chk.seed, meth, payload=bombs[bname], tag='c15b-' + bname)
                     if p:
                         files.append(p)
@@ -332,7 +355,8 @@ def part_bombs(chk, n_versions):
                 culprit = next((f for f in files_ if os.path.basename(f) not in done), None)
                 v, meth, bname, size = meta.get(os.path.basename(culprit or ''), ('?', '?', '?', 0))
                 chk.report('the parser process is killed or hangs on a %d-byte crafted pickle (%s) in %s of wows %s: %s' % (size, bname, meth, v, died),
-                           {'kind': 'bomb-crash', 'version': v, 'method': meth, 'pickle': bname, 'payload': bombs.get(bname, b'').hex()}, key='pickle-graph:%s' % meth)
+                           {'kind': 'bomb-crash', 'version': v, 'method': meth, 'pickle': bname, 'payload': bombs.get(bname, b'').hex()},
+                           key='pickle-hash:tuple-key' if bname == 'tuple-key' else 'pickle-graph:%s' % meth)
             for r in out:
                 v, meth, bname, size = meta[r['file']]
                 chk.count((r['file'], mode), nontrivial=True)
@@ -340,7 +364,8 @@ def part_bombs(chk, n_versions):
                 if r['outcome'] != 'result' or r.get('cpu_s', 0) > 10:
                     chk.report('a %d-byte crafted pickle (%s) in %s of wows %s: parse ends with %s after %.1f s CPU, peak memory +%.0f MB' % (
                         size, bname, meth, v, r['outcome'], r.get('cpu_s', 0), r.get('rss_growth_mb', 0)),
-                        {'kind': 'bomb', 'version': v, 'method': meth, 'pickle': bname, 'payload': bombs[bname].hex(), 'outcome': r}, key='pickle-graph:%s' % meth)
+                        {'kind': 'bomb', 'version': v, 'method': meth, 'pickle': bname, 'payload': bombs[bname].hex(), 'outcome': r},
+                        key='pickle-hash:tuple-key' if bname == 'tuple-key' else 'pickle-graph:%s' % meth)
     finally:
         for p in files:
             if os.path.exists(p):
@@ -513,9 +538,9 @@ def run(chk, drv):
                        'parse under RLIMIT_AS 3 GiB and a CPU-time limit of 20 s + 60 s/MB (wall clock 8x); battles with extreme field values; crafted pickle graphs; adaptive runs of adversarial slice packets (growth bound); corrupted streams of generated histories through model and '
                        'implementation; NoZeroWidth on every bundled set. Non-trivial: all; distinct by (file, mode).')
     part_zero_width(chk)
-    part_campaign(chk, 40 if quick else 1500, 5 if quick else 10)
+    part_campaign(chk, 24 if quick else 1500, 4 if quick else 10)
     part_extreme(chk, 16 if quick else 1000)
-    part_bombs(chk, 12 if quick else 1000)
+    part_bombs(chk, 100 if quick else 1000)
     part_adaptive(chk, 16 if quick else 200, 40)
     part_streams(chk, drv, 12 if quick else 300)
     chk.assumptions += ['wall time and memory are measured, not proved; zlib, pickle and json costs are external']
